@@ -309,9 +309,10 @@ def parse_single_name_into_parts(name, strict=True):
                     word.append(escaped)
                     continue
 
-            # If we're at the end of the string, then the \ is just a \.
+            # If we're at the end of the string, then the \ is just a \
+            # (which is added to the word as a regular character, below).
             except StopIteration:
-                word.append(char)
+                pass
 
         # Start of a braced expression.
         if char == "{":
